@@ -843,7 +843,9 @@ def rule_payloads(run, F, cfg):
     run.ob("C03.1.option-chain", "string-payloads-verbatim:parse", norm == want,
            f"NetworkFilter::parse stores the option payloads themselves in tag / modifier_option ({norm})", site=c.loc(0), config=cfg)
     hashed = [re.sub(r"arg:\w+@", "arg:option@", c.expr_call(t)) for b, t in c.calls(r"^utils::fast_hash$")]
-    run.ob("C03.1.option-chain", "domain-entries-hashed-verbatim",
-           hashed == ["utils::fast_hash(<std::vec::IntoIter<T, A> as std::iter::Iterator>::next(arg:option@Domain.0)@Some.0.1)"],
-           f"each `$domain=` entry is hashed as written (the request side hashes the initiator's hostname labels verbatim): {hashed}",
+    ok_h = len(hashed) == 1 and bool(re.match(
+        r"^utils::fast_hash\(std::str::to_ascii_lowercase\(<std::vec::IntoIter<T, A> as std::iter::Iterator>::next\((arg:option@Domain\.0|…var:iter|…_\d+)\)@Some\.0\.1\)\)$", hashed[0]))
+    run.ob("C03.1.option-chain", "domain-entries-hashed-verbatim", ok_h,
+           "each `$domain=` entry is hashed as written apart from ASCII lower-casing (the request side hashes the labels of the "
+           f"initiator's hostname, which is lower-case; host names are case-insensitive): {hashed}",
            site=c.loc(0), config=cfg)
